@@ -19,6 +19,7 @@ import (
 	"strconv"
 	"strings"
 	"sync"
+	"time"
 )
 
 // A data socket is used to send non-control data between the client and
@@ -91,6 +92,9 @@ func (socket *ftpActiveSocket) Close() error {
 	return socket.conn.Close()
 }
 
+// how long a passive data socket waits for the client to connect
+const passiveAcceptTimeout = 10 * time.Second
+
 type ftpPassiveSocket struct {
 	conn      net.Conn
 	port      int
@@ -159,11 +163,17 @@ func (socket *ftpPassiveSocket) GoListenAndServe(sessionid string) (err error) {
 	}
 
 	var listener net.Listener
-	listener, err = net.ListenTCP("tcp", laddr)
+	tcpListener, err := net.ListenTCP("tcp", laddr)
 	if err != nil {
 		log.Debug(sessionid, err.Error())
 		return
 	}
+
+	// a client that never connects to the data port must not block the
+	// command that waits for it forever
+	tcpListener.SetDeadline(time.Now().Add(passiveAcceptTimeout))
+
+	listener = tcpListener
 
 	add := listener.Addr()
 	parts := strings.Split(add.String(), ":")
